@@ -460,6 +460,8 @@ PREDICATES = {
     "supports_differ": H.supports_differ,
     # some position is stored by the left operand only: x/0 there (pyttb writes NaN, the property says signed infinity)
     "left_only_position_exists": lambda c: bool(set(H._keys(c["a"])) - set(H._keys(c["b"]))),
+    # judged on the arrays the operands denote (explicitly stored zeros included): x/0 somewhere
+    "x_over_zero_somewhere": lambda c: bool(((H.dense_of(c["shape"], c["a"]) != 0) & (H.dense_of(c["shape"], c["b"]) == 0)).any()),
     "both_empty": lambda c: _na(c) == 0 and _nb(c) == 0,
     "exactly_one_operand_empty": lambda c: (_na(c) == 0) != (_nb(c) == 0),
     # sptensor (op) tensor
